@@ -422,9 +422,15 @@ def ir_of_captured() -> str | None:
                 cons = "keyword" if any(getattr(c, k, None) is not None for k in CONSTRAINT_ATTRS) else "empty"
             n = {None: "N", True: "T", False: "F"}[f.nullable]
             b = lambda x: "1" if x else "0"  # noqa: E731
+            key = "-"
+            modname = type(m).__module__
+            if modname.endswith((".dataclass", ".msgspec")):
+                import importlib
+
+                key = b(importlib.import_module(modname)._has_field_assignment(f))
             return (
                 f"req={b(f.required)} nullable={n} hd={b(f.has_default)} thn={b(f.type_has_null)} "
-                f"sdn={b(f.strip_default_none)} dio={b(f.data_type.is_optional)} cons={cons}"
+                f"sdn={b(f.strip_default_none)} dio={b(f.data_type.is_optional)} cons={cons} key={key}"
             )
     return None
 
@@ -742,9 +748,134 @@ def stratified(ck: Check, n: int) -> list[dict]:
     return out
 
 
+# ---------------------------------------------------------------- member order (several members in one class)
+def build_multi_doc(vs: list[dict]) -> tuple[dict, str]:
+    props = {f"m{i}": realise(v)["member"] for i, v in enumerate(vs)}
+    obj: dict = {"type": "object", "properties": props}
+    req = [f"m{i}" for i, v in enumerate(vs) if v["inreq"]]
+    if req:
+        obj["required"] = req
+    if vs[0]["nullsrc"].startswith("oa"):
+        return ({"openapi": "3.1.0", "info": {"title": "t", "version": "1"}, "paths": {}, "components": {"schemas": {"M": obj}}}, "openapi")
+    return {"title": "M", **obj}, "jsonschema"
+
+
+def run_multi(vs: list[dict]) -> dict:
+    doc, ift = build_multi_doc(vs)
+    kind = vs[0]["kind"]
+    r = e2e.run_generate(doc, input_file_type=ift, model=kind, opts=opts_of(vs[0]))
+    if not r.ok:
+        return {"error": f"{r.error_type}: {r.error_msg[:200]}"}
+    members = []
+    for c in ast.parse(r.code).body:
+        if isinstance(c, ast.ClassDef) and c.name == "M":
+            members = [(s.target.id, s.value is not None) for s in c.body if isinstance(s, ast.AnnAssign) and isinstance(s.target, ast.Name)]
+    loads = "ok"
+    if kind != "msgspec.Struct":
+        try:
+            e2e.unload(e2e.load_module(r.code, kind))
+        except BaseException as e:  # noqa: BLE001
+            loads = f"{type(e).__name__}: {str(e)[:120]}"
+    return {"members": members, "loads": loads, "code": r.code.split("class M", 1)[-1]}
+
+
+def _multi_worker(groups: list[list[dict]]) -> list[dict]:
+    import warnings
+
+    warnings.simplefilter("ignore")
+    return [run_multi(g) for g in groups]
+
+
+def bad_order(seq: list[bool]) -> bool:
+    """a member without ` = …` after a member with one"""
+    seen = False
+    for has in seq:
+        if has:
+            seen = True
+        elif seen:
+            return True
+    return False
+
+
+def campaign_order(ck: Check, n: int) -> None:
+    camp = ck.campaign("member order: three members per class (dataclass exec'd, msgspec read statically) vs Model.Field.sortKey + render")
+    t0 = time.time()
+    rng = ck.rng.fork("order")
+    groups = [
+        # the D7-msgspec consequence, minimal: required nullable member before a required one
+        [mk_vec("msgspec.Struct", "js-typelist", 1, "none", "scalar", 0, [0] * 7), mk_vec("msgspec.Struct", "js-no", 1, "none", "scalar", 0, [0] * 7)],
+        [mk_vec("dataclasses.dataclass", "js-no", 0, "str", "scalar", 0, [0] * 7), mk_vec("dataclasses.dataclass", "js-no", 1, "none", "scalar", 0, [0] * 7)],
+    ]
+    while len(groups) < n:
+        kind = rng.choice(["dataclasses.dataclass", "msgspec.Struct"])
+        dialect = rng.choice(["js", "oa"])
+        bits = [rng.chance(1, 4) for _ in OPT_TAG]
+        g = []
+        for _ in range(3):
+            d = rng.choice(DFLT)
+            ty = rng.choice(ty_of(d))
+            v = mk_vec(kind, rng.choice([x for x in NULLSRC if x.startswith(dialect)]), rng.chance(1, 2), d, ty,
+                       rng.chance(1, 3) and ty != "object", bits, variant=rng.below(6))
+            if v["opts"]["an"] and not v["opts"]["fc"]:
+                v["opts"]["fc"] = True
+            g.append(v)
+        for v in g:
+            v["opts"] = dict(g[0]["opts"])
+        groups.append(g)
+    flat = [v for g in groups for v in g]
+    replies = [parse_reply(x) for x in ck.driver.run([driver_request(v) for v in flat])]
+    nwork = max(1, min(14, (os.cpu_count() or 2) - 1))
+    size = max(4, len(groups) // (nwork * 3) + 1)
+    chunks = [groups[i : i + size] for i in range(0, len(groups), size)]
+    if len(groups) < 30:
+        results = _multi_worker(groups)
+    else:
+        with ProcessPoolExecutor(max_workers=nwork, initializer=_init_worker, initargs=(e2e.scratch_root(),)) as ex:
+            results = [x for c in ex.map(_multi_worker, chunks) for x in c]
+    k = 0
+    for g, r in zip(groups, results):
+        models = replies[k : k + len(g)]
+        k += len(g)
+        camp.evaluations += 1
+        kind = KIND_TAG[g[0]["kind"]]
+        inp = {"vectors": g, "keys": [vec_key(v) for v in g]}
+        camp.hit(f"kind:{kind}")
+        if "error" in r or any(m is None for m in models):
+            camp.hit("generator_error")
+            continue
+        camp.distinct.add(json.dumps(inp["keys"]))
+        # model: stable sort by key (False first); a member has an assignment iff its shape says so
+        keyed = [(m["ir"].split(" key=")[-1] == "1", i, not m["shape"].endswith("asg=none")) for i, m in enumerate(models)]
+        order = sorted(keyed, key=lambda t: t[0])
+        model_members = [(f"m{i}", has) for _, i, has in order]
+        if model_members != [tuple(x) for x in r["members"]]:
+            ck.disagree(camp, inp, model_members, r["members"])
+        elif len(camp.samples) < 2:
+            camp.samples.append({"keys": inp["keys"], "members": r["members"]})
+        predicted = bad_order([h for _, h in model_members])
+        real_bad = bad_order([h for _, h in r["members"]])
+        camp.hit("order-ok" if not real_bad else "member-without-default-after-default")
+        failed = None
+        if r["loads"] != "ok":
+            failed = "required_member_after_default" if real_bad else r["loads"].split(":")[0]
+        elif kind == "ms" and real_bad:
+            failed = "required_member_after_default"  # msgspec refuses this Struct (read statically)
+        if failed:
+            ck.fail({"clause": "class_creation", "kind": kind, "mechanism": failed, "model_predicts": predicted}, inp,
+                    f"class M{r['code'][:300]!r} loads={r['loads']}", "the generated class can be created")
+    camp.wall_s = time.time() - t0
+
+
 def known_findings(ck: Check) -> None:
     """Re-run the stored witness of every open finding on the real code."""
     for f in ck.findings:
+        if "vectors" in f["witness"]:
+            probe = Check(ck.prop, ck.tier)
+            probe.findings = []
+            r = run_multi(f["witness"]["vectors"])
+            if "members" in r and bad_order([h for _, h in r["members"]]):
+                ck.known(f["id"], f["what"])
+            continue
         w = f["witness"]["vector"]
         probe = Check(ck.prop, ck.tier)
         probe.findings = []
@@ -791,6 +922,7 @@ def run(ck: Check) -> None:
             v["variant"] = rng.below(6)
         for i in range(0, len(vs), 20000):
             run_batch(ck, camps, vs[i : i + 20000])
+    campaign_order(ck, 200 if quick else 4000)
     ck.notes["space"] = {"valid_vectors_total": len(all_vectors()) if not quick else 105600, "tier_covers": "exhaustive" if not quick else "stratified sample"}
     ck.search_hooks.append(search_exhaustive)
     known_findings(ck)
@@ -799,6 +931,12 @@ def run(ck: Check) -> None:
 def replay(ck: Check, path: str) -> int:
     data = json.loads(open(path).read())
     inp = data.get("input") or (data.get("first_disagreement") or {}).get("input") or {}
+    if inp.get("vectors"):
+        r = run_multi(inp["vectors"])
+        print("class M" + r.get("code", r.get("error", ""))[:400])
+        bad = "members" in r and (bad_order([h for _, h in r["members"]]) or r["loads"] != "ok")
+        print("REPLAY-FAILS: member order / class creation" if bad else "replay: the oracle does not fail on this input")
+        return 1 if bad else 0
     v = inp.get("vector")
     if not v:
         print("replay: no vector in the replay file")
